@@ -285,3 +285,49 @@ def run_structure_transfers(S, C, transfers):
                          "budget": budget, "faulty": bool(seg_faults or req_faults), "seg_faults": seg_faults})
             eng.c2s_tape, eng.s2c_tape, eng.s2c_cycle = [], [], None
     return outs
+
+
+# ------------------------------------------------------------------ threaded GeckoSpa on the engine
+
+CLIENT_ID = b"IOSvp-client-uuid"
+SPA_ID = b"SPA01:02:03:04:05:06"
+
+
+def make_threaded_spa(eng, sim):
+    """a GeckoSpa attached to the engine (must be called inside eng.patched())"""
+    from geckolib.spa import GeckoSpa
+    from geckolib.spa_descriptor import GeckoSpaDescriptor
+
+    desc = GeckoSpaDescriptor(CLIENT_ID, SPA_ID, "Spa", SPA_ADDR)
+    spa = GeckoSpa(desc)
+    eng.attach(spa)
+    eng.peer = sim_peer(sim)
+    return spa
+
+
+def run_until(eng, cond, max_iterations=40000):
+    """run the library's engine loop until cond() holds (checked once per iteration)"""
+    eng.obj._exit_event.clear()
+    eng.iterations = 0
+    eng.max_iterations = max_iterations
+    eng.stop_when = cond
+    eng.run()
+    return cond()
+
+
+def quiescent(eng, spa):
+    from geckolib.driver import GeckoStatusBlockProtocolHandler
+
+    def q():
+        if eng.inbox or spa._send_handlers:
+            return False
+        return not any(isinstance(h, GeckoStatusBlockProtocolHandler) for h in spa._receive_handlers)
+    return q
+
+
+def connect_threaded_spa(eng, sim, max_iterations=40000):
+    spa = make_threaded_spa(eng, sim)
+    exit_event = spa._exit_event
+    spa.start_connect()  # open() re-creates the exit event and an inert thread; keeps our socket
+    ok = run_until(eng, lambda: spa._is_connected and not eng.inbox and not spa._send_handlers, max_iterations)
+    return spa, ok
